@@ -1712,6 +1712,9 @@ class Surface(SplineGeometry):
 
         self._tsl_component = value
 
+        # The component can hold the vertices and faces of another state of the surface (or of another surface)
+        self._tsl_component.reset()
+
     @property
     def vertices(self):
         """ Vertices generated by the tessellation operation.
